@@ -4,7 +4,8 @@ Generator: programs made of a main file and include files in several directories
 directories, files included more than once, nested includes, includes reached relative to the including file, relative to
 the working directory, through `-i`), code statements at file level, inside REPT / IRP / IRPN / IRPC / WHILE bodies (also
 nested and with REPT 0 / WHILE 0), inside macro bodies, INCLUDE statements inside all of these, code after the blocks,
-continuation lines, blank and comment lines.  Every code statement is a `db`/`byt` line storing marker bytes that identify
+continuation lines (everywhere; every other block body has them at a high rate, so that body lines behind a continued body
+line are frequent - as.c AddBodyLine stores the source line of every body line), blank and comment lines.  Every code statement is a `db`/`byt` line storing marker bytes that identify
 the statement (`LineInfo.stmtBytes id`); the program is a nesting tree (the tokens of vlib/props/c20.py), the files are
 its rendering.
 
@@ -15,17 +16,26 @@ its rendering.
     + `addFile` + `addLineInfo`.
 """
 import os
+import re
 
 from .. import common
 from . import c19
-
-SIG_CONT = "loop-body-line-after-continuation-line"
 
 TARGETS = [("z80", "db"), ("6502", "byt"), ("8051", "db"), ("8086", "db")]
 DIRS = ["", "", "inc", "inc", "lib", "inc/sub", "lib/x"]
 BASES = ["t.inc", "t.inc", "tab.inc", "defs.inc", "m.asm"]
 ARG_POOL = ["5", "6", "7", "12", "AB", "cd", "Q9", "0", "Z"]
 IRPC_POOL = "abcxyzQR0189"
+
+
+def irpc_string(r, n):
+    """the string of an IRPC statement.  Inside the body of an enclosing IRP the parameter of that IRP (`x<number>`) is replaced
+    also inside string literals: `irp x1,AB,Z` / `irpc c,"x1"` iterates over "AB" and "Z".  The generator counts iterations from
+    the text it writes, so a string that spells such a parameter name is drawn again."""
+    while True:
+        s = "".join(r.choice(IRPC_POOL) for _ in range(n))
+        if not re.search(r"[xX][0-9]", s):
+            return s
 
 
 def stmt_bytes(i):
@@ -49,15 +59,16 @@ class Gen:
         self.macros = []      # (name, body)
         self.incdirs = []
         self.budget = 0
-        self.stats = dict(code_lines=0, cont_lines=0, cont_in_block=0, incl_in_block=0, incl_in_macro=0, incl_nested=0, incl_again=0,
+        self.stats = dict(code_lines=0, cont_lines=0, cont_in_block=0, code_behind_cont_in_block=0, incl_in_block=0, incl_in_macro=0, incl_nested=0, incl_again=0,
                           same_base=0, if_blocks=0, code_after_block=0, block_in_block=0, block_in_macro=0, incl_via_path=0, incl_via_parent=0)
         self.maindir = rng.choice(["", "", "src"])
         self.mainname = os.path.join(self.maindir, rng.choice(["main.asm", "m.asm", "t.asm"]))
 
     # ---- text
-    def cont(self, text, allow):
+    def cont(self, text, rate):
+        """split a logical line over 1..3 physical lines (`rate`: how often)"""
         r = self.rng
-        if not allow or r.random() < 0.85 or len(text) < 4:
+        if r.random() >= rate or len(text) < 4:
             return [text]
         k = r.choice([2, 2, 3])
         cuts = sorted(set(r.randrange(2, len(text) - 1) for _ in range(k - 1)))
@@ -75,20 +86,20 @@ class Gen:
             return "$%x" % v if k == 0 else str(v)
         return ("0%xh" % v) if k == 0 else (("%xh" % v) if (k == 1 and ("%x" % v)[0].isdigit()) else str(v))
 
-    def code(self, allow_cont):
+    def code(self, rate=0.15):
         self.nid += self.rng.choice([1, 1, 2, 5, 250])
         i = self.nid % 65536
         t = "\t%s\t%s" % (self.db, ",".join(self.num(b) for b in stmt_bytes(i)))
         if self.rng.random() < 0.15:
             t += " ; c%d" % i
         self.stats["code_lines"] += 1
-        return ("code", i, self.cont(t, allow_cont))
+        return ("code", i, self.cont(t, rate))
 
-    def plain(self, allow_cont):
+    def plain(self, rate=0.15):
         r = self.rng
         self.nvar += 1
         t = r.choice(["", "; remark", "\t; indented remark", "v%d\tset\t%d" % (self.nvar, self.nvar), "v%d\tset\t2*%d" % (self.nvar, self.nvar)])
-        return ("plain", self.cont(t, allow_cont and len(t) > 6))
+        return ("plain", self.cont(t, rate if len(t) > 6 else 0))
 
     # ---- structure
     def body(self, depth, mult, ctx, cur, minlen=1):
@@ -97,18 +108,26 @@ class Gen:
         n = r.choice([1, 2, 2, 3, 4]) if depth > 0 else r.randrange(4, 10)
         n = max(n, minlen)
         out = []
-        # continuation lines inside block bodies shift the real line numbers (known finding): keep them rare there
-        allow_cont = (ctx != "b") or r.random() < 0.12
+        # continuation lines anywhere, also inside block bodies (AddBodyLine stores the source line of every body line); every
+        # other block body gets them at a higher rate, so that body lines *behind* a continued line are frequent
+        allow_cont = 0.45 if (ctx == "b" and r.random() < 0.5) else 0.15
+        seen_cont = False
         for _ in range(n):
             x = r.random()
             if self.budget <= 0 or x < 0.45 or depth >= 4:
                 it = self.code(allow_cont)
-                if ctx == "b" and len(it[2]) > 1:
-                    self.stats["cont_in_block"] += 1
+                if ctx == "b":
+                    if len(it[2]) > 1:
+                        self.stats["cont_in_block"] += 1
+                    if seen_cont:
+                        self.stats["code_behind_cont_in_block"] += 1
+                seen_cont = seen_cont or len(it[2]) > 1
                 out.append(it)
                 self.budget -= mult
             elif x < 0.60:
-                out.append(self.plain(allow_cont))
+                it = self.plain(allow_cont)
+                seen_cont = seen_cont or len(it[1]) > 1
+                out.append(it)
             elif x < 0.66 and depth < 4:
                 # conditional assembly: the lines of a skipped branch count as lines, its statements are not executed
                 self.stats["if_blocks"] += 1
@@ -167,7 +186,7 @@ class Gen:
                     self.body(depth + 1, mult * groups, "b", cur))
         if c == "irpc":
             n = r.choice([1, 2, 3])
-            return ("irpc", "ch%d" % self.fresh(), "".join(r.choice(IRPC_POOL) for _ in range(n)), self.body(depth + 1, mult * n, "b", cur))
+            return ("irpc", "ch%d" % self.fresh(), irpc_string(r, n), self.body(depth + 1, mult * n, "b", cur))
         if c == "while":
             n = r.choice([1, 2])
             return ("while", n, "cnt%d" % self.fresh(), self.body(depth + 1, mult * n, "b", cur))
@@ -376,7 +395,7 @@ def gen_program(rng, idx):
         macros = dict(g.macros)
         org = rng.choice([0, 0x100, 0x1000, 0x8000])
         head = [("plain", ["\tcpu\t%s" % g.cpu]), ("plain", ["\torg\t%d" % org])]
-        top = head + [("mdef", n, macros[n]) for n, _ in g.macros] + main + [g.code(True)]
+        top = head + [("mdef", n, macros[n]) for n, _ in g.macros] + main + [g.code()]
         n = count_exec(top, macros, g.files)
         if not (3 <= n <= 160):
             continue
@@ -510,7 +529,7 @@ def run_lines(bdir, wd, rng, nprog, driver_ok):
     answers = common.driver("c19l", reqs, timeout=3600) if driver_ok and reqs else []
     spec_fail, corr_fail, samples = [], [], []
     agg = dict(programs=0, asl_rejected=0, executed_statements=0, map_entries=0, noice_programs=0, noice_entries=0, atmel_programs=0, atmel_records=0, listing_groups=0,
-               programs_with_continuation_in_block=0, known_records=0)
+               programs_with_continuation_in_block=0, programs_with_code_behind_continuation_in_block=0)
     distinct = set()
     for meta, ri in metas:
         agg["programs"] += 1
@@ -536,9 +555,8 @@ def run_lines(bdir, wd, rng, nprog, driver_ok):
         agg["atmel_records"] += int(kv["n_atm"])
         agg["atmel_programs"] += 1 if kv["spec_atm"] != "-" else 0
         agg["listing_groups"] += int(kv["n_lst"])
-        agg["programs_with_continuation_in_block"] += 1 if kv["wf"] == "0" else 0
-        nknown = int(kv["known_map"]) + int(kv["known_noi"]) + int(kv["known_atm"]) + int(kv.get("known_lst", 0))
-        agg["known_records"] += nknown
+        agg["programs_with_continuation_in_block"] += 1 if meta["stats"]["cont_in_block"] else 0
+        agg["programs_with_code_behind_continuation_in_block"] += 1 if meta["stats"]["code_behind_cont_in_block"] else 0
         distinct.add((meta["cpu"], kv["execs"], kv["files"], kv["n_map"], kv["bytes"]))
         if len(samples) < 2 and int(kv["files"]) > 2 and int(kv["execs"]) > 10:
             samples.append(dict(tag=meta["tag"], cpu=meta["cpu"], args=meta["args"], map=meta["map_head"], files=sorted(meta["files"]), verdict=kv))
@@ -560,9 +578,6 @@ def run_lines(bdir, wd, rng, nprog, driver_ok):
         if kv.get("atm_files", "ok") != "ok":
             bad = True
             spec_fail.append(dict(why="Atmel object file: a file index stands for two different source files, or its name is not the file's base name", **cf))
-        if nknown:
-            spec_fail.append(dict(sig=SIG_CONT, why="a body line of a REPT/IRP/IRPC/WHILE block that follows a continuation line inside the body is numbered by "
-                                  "logical lines (StartLine + LineZ): the debug files and the listing name an earlier physical line", **cf))
         if not bad:
             if kv["corr_map"] != "ok":
                 corr_fail.append(dict(why="order/values of the MAP line records differ from the model (CurrLine/CurrFileName machine + AddFile + AddLineInfo)", **cf))
